@@ -24,6 +24,40 @@ Proof.
     rewrite <- !qs_scale, <- qs_plus. reflexivity.
 Qed.
 
+(* ---------------- more finite sums ---------------- *)
+Lemma qs_swap (f : Z -> Z -> Q) l1 l2 :
+  (qs (fun a => qs (fun b => f a b) l2) l1 == qs (fun b => qs (fun a => f a b) l1) l2)%Q.
+Proof.
+  induction l1 as [|a l1 IH].
+  - symmetry. apply qs_zero. reflexivity.
+  - rewrite qs_cons, IH, <- qs_plus. apply qs_ext. intros b _. rewrite qs_cons. reflexivity.
+Qed.
+
+Lemma qs_shift (f : Z -> Q) (c : Z) : forall n lo, (qs f (zr (lo + c) n) == qs (fun a => f (a + c)%Z) (zr lo n))%Q.
+Proof.
+  induction n as [|n IH]; intros lo; [reflexivity|]. cbn [zr]. rewrite !qs_cons.
+  replace (lo + c + 1) with (lo + 1 + c) by lia. rewrite IH. reflexivity.
+Qed.
+
+Lemma qs_window (f : Z -> Q) lo n a m : lo <= a -> a + Z.of_nat m <= lo + Z.of_nat n ->
+  (forall i, i < a \/ a + Z.of_nat m <= i -> (f i == 0)%Q) -> (qs f (zr lo n) == qs f (zr a m))%Q.
+Proof.
+  intros H1 H2 Hz.
+  replace n with (Z.to_nat (a - lo) + (m + Z.to_nat (lo + Z.of_nat n - a - Z.of_nat m)))%nat by lia.
+  rewrite !zr_app, !qs_app. replace (lo + Z.of_nat (Z.to_nat (a - lo))) with a by lia.
+  rewrite (qs_zero f (zr lo _)), (qs_zero f (zr (a + Z.of_nat m) _)); [ring | |].
+  - intros x Hx. apply zr_In in Hx. apply Hz. lia.
+  - intros x Hx. apply zr_In in Hx. apply Hz. lia.
+Qed.
+
+Lemma dist_qs {A} (m : prog A) (f : Z -> A -> Q) l :
+  (dist m (fun s => qs (fun a => f a s) l) == qs (fun a => dist m (f a)) l)%Q.
+Proof.
+  induction l as [|a l IH].
+  - apply (dist_const m 0%Q).
+  - rewrite qs_cons, <- IH, <- dist_plus. apply dist_ext. intros s. rewrite qs_cons. reflexivity.
+Qed.
+
 Section Alive.
 Variable H : Z -> ext.
 Variable L : Z -> ext.
@@ -438,6 +472,295 @@ Proof.
   - intros i _. destruct (sl i) eqn:Hi.
     + apply (alive_law j i a x Hi).
     + rewrite (pk_support_i H U logu j a i x); [ring|]. unfold C08_Block.ee. rewrite Hi, andb_false_r. reflexivity.
+Qed.
+
+
+(* ================= the complete transition: accounting for the mass that has stopped ================= *)
+Notation curi := (cur_ind Z Z.eqb).
+
+(* one direction of one doubling, looking only at the current state (whether or not the loop stays alive) *)
+Lemma dir_cur (st : top Z) (v : bool) (j : nat) (k : Z) :
+  p_s st = true -> p_j st = j -> p_plus st = p_minus st + pw j - 1 -> p_n st = bn j (p_minus st) ->
+  let a := p_minus st in
+  let nb := if v then a + pw j else a - pw j in
+  (dist (doubling_dir st v) (curi k)
+   == curi k st - b2q (okb j nb) * acc_prob (bn j nb) (bn j a) * curi k st
+      + b2q (okb j nb) * (b2q (inb j nb k && sl k) * (acc_prob (bn j nb) (bn j a) / inject_Z (bn j nb))))%Q.
+Proof.
+  intros Eps Ej Hp Hn. subst j. intros a nb.
+  set (d := dir_skel Z zleap H U A logu st v).
+  assert (Enb : nblk (dir_start Z st v) v (p_j st) = nb).
+  { unfold nblk, dir_start, nb, a. destruct v; [rewrite Hp; lia | reflexivity]. }
+  assert (Eok : k_ok Z d = okb (p_j st) nb).
+  { unfold d, dir_skel. rewrite dbuild_ok_okb, Enb. reflexivity. }
+  destruct (okb (p_j st) nb) eqn:Hok.
+  - destruct (dbuild_block (p_j st) (dir_start Z st v) v) as (LL & N1 & M1 & P1).
+    { unfold d, dir_skel in Eok. exact Eok. }
+    rewrite Enb in N1.
+    rewrite (doubling_dir_law0 Z zleap H L U A logu Z.eqb guard st v k).
+    2:{ fold d. exact Eok. }
+    2:{ apply fin_leaves. }
+    fold d. assert (EN : k_n Z d = bn (p_j st) nb) by (unfold d; exact N1).
+    rewrite EN, Hn. fold a.
+    pose proof (selp_block (p_j st) (dir_start Z st v) v k (bn (p_j st) a) Eok) as SB. cbn zeta in SB.
+    rewrite Enb in SB. rewrite SB. cbn [b2q]. ring.
+  - rewrite (dist_ext_out (fun st' => p_cur st' = p_cur st) (doubling_dir st v) (curi k) (fun _ => curi k st)).
+    + rewrite dist_const. cbn [b2q]. ring.
+    + eapply all_out_impl; [| apply (doubling_dir_stop Z zleap H L U A logu guard st v)].
+      * intros st' (E & _). exact E.
+      * fold d. exact Eok.
+    + intros st' E. unfold cur_ind. rewrite E. reflexivity.
+Qed.
+
+(* coefficients of one doubling at level j seen from position k: a trajectory (j, a) extended to the right (P)
+   or to the left (M) *)
+Definition cP (j : nat) (a : Z) : Q := (b2q (okb j (a + pw j)) * acc_prob (bn j (a + pw j)) (bn j a))%Q.
+Definition dP (j : nat) (k a : Z) : Q :=
+  (b2q (okb j (a + pw j)) * (b2q (inb j (a + pw j) k && sl k) * (acc_prob (bn j (a + pw j)) (bn j a) / inject_Z (bn j (a + pw j)))))%Q.
+Definition cM (j : nat) (a : Z) : Q := (b2q (okb j (a - pw j)) * acc_prob (bn j (a - pw j)) (bn j a))%Q.
+Definition dM (j : nat) (k a : Z) : Q :=
+  (b2q (okb j (a - pw j)) * (b2q (inb j (a - pw j) k && sl k) * (acc_prob (bn j (a - pw j)) (bn j a) / inject_Z (bn j (a - pw j)))))%Q.
+Definition gP (j : nat) (k a : Z) (st : top Z) : Q := (dP j k a * alive_blk j a st - cP j a * alive_ind j a k st)%Q.
+Definition gM (j : nat) (k a : Z) (st : top Z) : Q := (dM j k a * alive_blk j a st - cM j a * alive_ind j a k st)%Q.
+(* the trajectories (j, a) whose extension to the right / left can touch position k *)
+Definition rP (j : nat) (k : Z) : list Z := zr (k - 2 * pw j + 1) (2 * 2 ^ j).
+Definition rM (j : nat) (k : Z) : list Z := zr (k - pw j + 1) (2 * 2 ^ j).
+
+Lemma alive_other (st : top Z) j a x : p_minus st <> a -> alive_blk j a st = 0%Q /\ alive_ind j a x st = 0%Q.
+Proof.
+  intros Hne. unfold alive_blk, alive_ind. replace (p_minus st =? a) with false by (symmetry; apply Z.eqb_neq; exact Hne).
+  rewrite !andb_false_r. cbn. split; reflexivity.
+Qed.
+
+(* the last doubling, looking at the current state only *)
+Lemma cur_step (st : top Z) (j : nat) (k : Z) :
+  inv_blk st -> (p_s st = true -> p_j st = j) ->
+  (dist (doublings 1 st) (curi k)
+   == curi k st + (1 # 2) * (qs (fun a => gP j k a st) (rP j k) + qs (fun a => gM j k a st) (rM j k)))%Q.
+Proof.
+  intros Hinv Hj. cbn [C08_NUTS.doublings]. destruct (p_s st) eqn:Eps; cbn [negb].
+  - specialize (Hj eq_refl). destruct (Hinv Eps) as (Hp & Hn & Hc). rewrite Hj in Hp, Hn.
+    rewrite dist_bind. rewrite (dist_ext _ _ (curi k)) by (intros; reflexivity).
+    unfold C08_NUTS.doubling. cbn [dist].
+    rewrite (dir_cur st true j k Eps Hj Hp Hn), (dir_cur st false j k Eps Hj Hp Hn). cbn zeta.
+    set (a0 := p_minus st) in *.
+    assert (Ab : alive_blk j a0 st = 1%Q).
+    { unfold alive_blk, a0. rewrite Eps, Hj, Nat.eqb_refl, Z.eqb_refl. reflexivity. }
+    assert (Ai : alive_ind j a0 k st = curi k st).
+    { unfold alive_ind, cur_ind, a0. rewrite Eps, Hj, Nat.eqb_refl, Z.eqb_refl. cbn [andb]. destruct (p_cur st =? k); reflexivity. }
+    pose proof (pw_pos j) as Hpw.
+    assert (SP : (qs (fun a => gP j k a st) (rP j k) == dP j k a0 - cP j a0 * curi k st)%Q).
+    { unfold rP. rewrite (qs_single _ _ a0 (zr_NoDup _ _)).
+      - destruct (in_dec Z.eq_dec a0 _) as [Hin | Hout].
+        + unfold gP. rewrite Ab, Ai. ring.
+        + rewrite zr_In in Hout.
+          assert (E1 : inb j (a0 + pw j) k = false).
+          { unfold inb. destruct (a0 + pw j <=? k) eqn:E; [|reflexivity]. apply Z.leb_le in E. cbn [andb].
+            apply Z.ltb_ge. unfold pw in *. lia. }
+          assert (E2 : curi k st = 0%Q).
+          { unfold cur_ind. destruct (p_cur st =? k) eqn:E; [|reflexivity]. apply Z.eqb_eq in E. exfalso. apply Hout. unfold pw in *. lia. }
+          unfold dP. rewrite E1, E2. cbn [andb b2q]. ring.
+      - intros a _ Hne. unfold gP. destruct (alive_other st j a k) as [Z1 Z2]; [unfold a0 in Hne; congruence|]. rewrite Z1, Z2. ring. }
+    assert (SM : (qs (fun a => gM j k a st) (rM j k) == dM j k a0 - cM j a0 * curi k st)%Q).
+    { unfold rM. rewrite (qs_single _ _ a0 (zr_NoDup _ _)).
+      - destruct (in_dec Z.eq_dec a0 _) as [Hin | Hout].
+        + unfold gM. rewrite Ab, Ai. ring.
+        + rewrite zr_In in Hout.
+          assert (E1 : inb j (a0 - pw j) k = false).
+          { unfold inb. destruct (a0 - pw j <=? k) eqn:E; [|reflexivity]. apply Z.leb_le in E. cbn [andb].
+            apply Z.ltb_ge. unfold pw in *. lia. }
+          assert (E2 : curi k st = 0%Q).
+          { unfold cur_ind. destruct (p_cur st =? k) eqn:E; [|reflexivity]. apply Z.eqb_eq in E. exfalso. apply Hout. unfold pw in *. lia. }
+          unfold dM. rewrite E1, E2. cbn [andb b2q]. ring.
+      - intros a _ Hne. unfold gM. destruct (alive_other st j a k) as [Z1 Z2]; [unfold a0 in Hne; congruence|]. rewrite Z1, Z2. ring. }
+    rewrite SP, SM. unfold dP, cP, dM, cM. fold a0. ring.
+  - cbn [dist]. rewrite (qs_zero (fun a => gP j k a st)), (qs_zero (fun a => gM j k a st)); [ring | |].
+    + intros a _. unfold gM, alive_blk, alive_ind. rewrite Eps. cbn [andb b2q]. ring.
+    + intros a _. unfold gP, alive_blk, alive_ind. rewrite Eps. cbn [andb b2q]. ring.
+Qed.
+
+
+Lemma pw_mono j J : (j < J)%nat -> 2 * pw j <= pw J.
+Proof.
+  intros Hlt. rewrite <- pw_S. unfold pw. apply inj_le. apply Nat.pow_le_mono_r; lia.
+Qed.
+
+Lemma bn_pos j a k : inb j a k && sl k = true -> 1 <= bn j a.
+Proof.
+  intros E. apply andb_true_iff in E as [Ein Es]. unfold inb in Ein. apply andb_true_iff in Ein as [E1 E2].
+  apply Z.leb_le in E1. apply Z.ltb_lt in E2. unfold C08_Block.bn, cnt_slice.
+  assert (Hin : In k (filter (in_slice Z H logu) (zr a (2 ^ j)))).
+  { apply filter_In. split; [apply zr_In; unfold pw in E2; lia | exact Es]. }
+  destruct (filter (in_slice Z H logu) (zr a (2 ^ j))); [destruct Hin | cbn; lia].
+Qed.
+
+(* expectation from start i, weighted by "i is in the slice" *)
+Definition ex (j : nat) (i : Z) (f : top Z -> Q) : Q := (b2q (sl i) * dist (doublings j (top_init i)) f)%Q.
+
+(* sums over the starts in a window that contains the block *)
+Lemma sum_alive_ind j a x lo n : lo <= a -> a + pw j <= lo + Z.of_nat n ->
+  (qs (fun i => ex j i (alive_ind j a x)) (zr lo n) == / inject_Z (pw j) * b2q (okb j a && inb j a x && sl x))%Q.
+Proof.
+  intros H1 H2. rewrite (qs_window _ lo n a (2 ^ j) H1); [| exact H2 |].
+  - rewrite <- (alive_uniform j a x). apply qs_ext. intros i _. unfold ex. destruct (sl i); cbn [b2q]; ring.
+  - intros i Hi. unfold ex. destruct (sl i) eqn:Es; cbn [b2q]; [|ring].
+    rewrite (alive_law j i a x Es), (pk_support_i H U logu j a i x); [ring|].
+    unfold C08_Block.ee, inb. fold (pw j) in Hi.
+    assert (E : (a <=? i) && (i <? a + pw j) = false).
+    { destruct Hi as [Hi | Hi]; [replace (a <=? i) with false by (symmetry; apply Z.leb_gt; lia); reflexivity
+                                | replace (i <? a + pw j) with false by (symmetry; apply Z.ltb_ge; lia); apply andb_false_r]. }
+    rewrite E, andb_false_r. reflexivity.
+Qed.
+
+Lemma sum_alive_blk j a lo n : lo <= a -> a + pw j <= lo + Z.of_nat n ->
+  (qs (fun i => ex j i (alive_blk j a)) (zr lo n) == / inject_Z (pw j) * (b2q (okb j a) * inject_Z (bn j a)))%Q.
+Proof.
+  intros H1 H2.
+  rewrite (qs_ext _ (fun i => (/ inject_Z (pw j) * b2q (okb j a) * b2q (inb j a i && sl i))%Q)).
+  - rewrite qs_scale. rewrite (qs_window _ lo n a (2 ^ j) H1); [| exact H2 |].
+    + rewrite bn_count. ring.
+    + intros i Hi. fold (pw j) in Hi. unfold inb.
+      assert (E : (a <=? i) && (i <? a + pw j) = false).
+      { destruct Hi as [Hi | Hi]; [replace (a <=? i) with false by (symmetry; apply Z.leb_gt; lia); reflexivity
+                                  | replace (i <? a + pw j) with false by (symmetry; apply Z.ltb_ge; lia); apply andb_false_r]. }
+      rewrite E. reflexivity.
+  - intros i _. unfold ex. destruct (sl i) eqn:Es; cbn [b2q].
+    + rewrite (alive_position_law j i a Es). destruct (okb j a), (inb j a i); cbn [andb b2q]; ring.
+    + rewrite andb_false_r. cbn [b2q]. ring.
+Qed.
+
+(* the two directions that can join blocks (j, a) and (j, a + 2^j) cancel: this is where
+   n_L min(1, n_R/n_L)/n_R + 1 - min(1, n_L/n_R) = 1 enters *)
+Lemma pair_zero j k a :
+  (dP j k a * (b2q (okb j a) * inject_Z (bn j a)) - cP j a * b2q (okb j a && inb j a k && sl k)
+   + (dM j k (a + pw j) * (b2q (okb j (a + pw j)) * inject_Z (bn j (a + pw j)))
+      - cM j (a + pw j) * b2q (okb j (a + pw j) && inb j (a + pw j) k && sl k)) == 0)%Q.
+Proof.
+  unfold dP, cP, dM, cM. replace (a + pw j - pw j) with a by lia.
+  set (b := a + pw j). set (nL := bn j a). set (nR := bn j b).
+  destruct (okb j a), (okb j b); cbn [andb b2q]; try ring.
+  destruct (inb j a k && sl k) eqn:EL; destruct (inb j b k && sl k) eqn:ER; cbn [b2q].
+  - pose proof (acc_balance nL nR (bn_nonneg H logu j a) (bn_pos j b k ER)) as B1.
+    pose proof (acc_balance nR nL (bn_nonneg H logu j b) (bn_pos j a k EL)) as B2.
+    unfold Qdiv in *. 
+    transitivity ((inject_Z nL * (acc_prob nR nL * / inject_Z nR) + (1 - acc_prob nL nR))
+                  + (inject_Z nR * (acc_prob nL nR * / inject_Z nL) + (1 - acc_prob nR nL)) - 2)%Q; [ring|].
+    rewrite B1, B2. ring.
+  - pose proof (acc_balance nR nL (bn_nonneg H logu j b) (bn_pos j a k EL)) as B2. unfold Qdiv in *.
+    transitivity ((inject_Z nR * (acc_prob nL nR * / inject_Z nL) + (1 - acc_prob nR nL)) - 1)%Q; [ring|].
+    rewrite B2. ring.
+  - pose proof (acc_balance nL nR (bn_nonneg H logu j a) (bn_pos j b k ER)) as B1. unfold Qdiv in *.
+    transitivity ((inject_Z nL * (acc_prob nR nL * / inject_Z nR) + (1 - acc_prob nL nR)) - 1)%Q; [ring|].
+    rewrite B1. ring.
+  - ring.
+Qed.
+
+(* one more doubling, from one start *)
+Lemma start_step j i k : sl i = true ->
+  (dist (doublings (S j) (top_init i)) (curi k)
+   == dist (doublings j (top_init i)) (curi k)
+      + (1 # 2) * (qs (fun a => dP j k a * dist (doublings j (top_init i)) (alive_blk j a)
+                                - cP j a * dist (doublings j (top_init i)) (alive_ind j a k)) (rP j k)
+                   + qs (fun a => dM j k a * dist (doublings j (top_init i)) (alive_blk j a)
+                                  - cM j a * dist (doublings j (top_init i)) (alive_ind j a k)) (rM j k)))%Q.
+Proof.
+  intros Hi. rewrite doublings_snoc.
+  rewrite (dist_ext_out (fun st' => inv_blk st' /\ (p_s st' = true -> p_j st' = j))
+             (doublings j (top_init i)) _
+             (fun st => (curi k st + (1 # 2) * (qs (fun a => gP j k a st) (rP j k) + qs (fun a => gM j k a st) (rM j k)))%Q)).
+  - rewrite dist_plus, dist_scale, dist_plus, !dist_qs.
+    rewrite (qs_ext (fun a => dist (doublings j (top_init i)) (gP j k a))
+               (fun a => (dP j k a * dist (doublings j (top_init i)) (alive_blk j a) - cP j a * dist (doublings j (top_init i)) (alive_ind j a k))%Q) (rP j k)).
+    2:{ intros a _. unfold gP.
+        rewrite (dist_ext _ _ (fun st => (dP j k a * alive_blk j a st + (- cP j a) * alive_ind j a k st)%Q)) by (intros; ring).
+        rewrite dist_lin. ring. }
+    rewrite (qs_ext (fun a => dist (doublings j (top_init i)) (gM j k a))
+               (fun a => (dM j k a * dist (doublings j (top_init i)) (alive_blk j a) - cM j a * dist (doublings j (top_init i)) (alive_ind j a k))%Q) (rM j k)).
+    2:{ intros a _. unfold gM.
+        rewrite (dist_ext _ _ (fun st => (dM j k a * alive_blk j a st + (- cM j a) * alive_ind j a k st)%Q)) by (intros; ring).
+        rewrite dist_lin. ring. }
+    reflexivity.
+  - apply all_out_and; [apply doublings_inv_blk; exact Hi|].
+    eapply all_out_impl; [| apply (doublings_pj j (top_init i))]. cbn [top_init p_j]. intros st' [_ B2] Hs. rewrite (B2 Hs). lia.
+  - intros st' (Hinv & Hj). apply (cur_step st' j k Hinv Hj).
+Qed.
+
+(* the counting measure on the slice is preserved by every further doubling *)
+Definition mass (j : nat) (k : Z) (W : list Z) : Q := qs (fun i => ex j i (curi k)) W.
+
+Lemma mass_step j J k : (j < J)%nat ->
+  (mass (S j) k (zr (k - pw J) (2 * 2 ^ J + 1)) == mass j k (zr (k - pw J) (2 * 2 ^ J + 1)))%Q.
+Proof.
+  intros Hlt. set (W := zr (k - pw J) (2 * 2 ^ J + 1)). unfold mass.
+  pose proof (pw_mono j J Hlt) as Hm. pose proof (pw_pos j) as Hp.
+  assert (HW : Z.of_nat (2 * 2 ^ J + 1) = 2 * pw J + 1) by (unfold pw; lia).
+  rewrite (qs_ext (fun i => ex (S j) i (curi k))
+             (fun i => (ex j i (curi k)
+                        + (1 # 2) * (qs (fun a => dP j k a * ex j i (alive_blk j a) - cP j a * ex j i (alive_ind j a k)) (rP j k)
+                                     + qs (fun a => dM j k a * ex j i (alive_blk j a) - cM j a * ex j i (alive_ind j a k)) (rM j k)))%Q) W).
+  2:{ intros i _. unfold ex. destruct (sl i) eqn:Es; cbn [b2q].
+      - rewrite (start_step j i k Es).
+        rewrite (qs_ext (fun a => (dP j k a * (1 * dist (doublings j (top_init i)) (alive_blk j a)) - cP j a * (1 * dist (doublings j (top_init i)) (alive_ind j a k)))%Q)
+                   (fun a => (dP j k a * dist (doublings j (top_init i)) (alive_blk j a) - cP j a * dist (doublings j (top_init i)) (alive_ind j a k))%Q))
+          by (intros; ring).
+        rewrite (qs_ext (fun a => (dM j k a * (1 * dist (doublings j (top_init i)) (alive_blk j a)) - cM j a * (1 * dist (doublings j (top_init i)) (alive_ind j a k)))%Q)
+                   (fun a => (dM j k a * dist (doublings j (top_init i)) (alive_blk j a) - cM j a * dist (doublings j (top_init i)) (alive_ind j a k))%Q))
+          by (intros; ring).
+        ring.
+      - rewrite (qs_zero (fun a => (dP j k a * (0 * _) - cP j a * (0 * _))%Q)) by (intros; ring).
+        rewrite (qs_zero (fun a => (dM j k a * (0 * _) - cM j a * (0 * _))%Q)) by (intros; ring).
+        ring. }
+  rewrite qs_plus, qs_scale, qs_plus.
+  (* exchange the sums over starts and over trajectories *)
+  rewrite (qs_swap (fun i a => (dP j k a * ex j i (alive_blk j a) - cP j a * ex j i (alive_ind j a k))%Q) W (rP j k)).
+  rewrite (qs_swap (fun i a => (dM j k a * ex j i (alive_blk j a) - cM j a * ex j i (alive_ind j a k))%Q) W (rM j k)).
+  assert (InnerP : forall a, In a (rP j k) ->
+            (qs (fun i => dP j k a * ex j i (alive_blk j a) - cP j a * ex j i (alive_ind j a k)) W
+             == / inject_Z (pw j) * (dP j k a * (b2q (okb j a) * inject_Z (bn j a)) - cP j a * b2q (okb j a && inb j a k && sl k)))%Q).
+  { intros a Ha. unfold rP in Ha. apply zr_In in Ha.
+    rewrite (qs_ext _ (fun i => (dP j k a * ex j i (alive_blk j a) + (- cP j a) * ex j i (alive_ind j a k))%Q)) by (intros; ring).
+    rewrite qs_plus, !qs_scale. unfold W.
+    rewrite (sum_alive_blk j a), (sum_alive_ind j a k); try (unfold pw in *; lia). ring. }
+  assert (InnerM : forall a, In a (rM j k) ->
+            (qs (fun i => dM j k a * ex j i (alive_blk j a) - cM j a * ex j i (alive_ind j a k)) W
+             == / inject_Z (pw j) * (dM j k a * (b2q (okb j a) * inject_Z (bn j a)) - cM j a * b2q (okb j a && inb j a k && sl k)))%Q).
+  { intros a Ha. unfold rM in Ha. apply zr_In in Ha.
+    rewrite (qs_ext _ (fun i => (dM j k a * ex j i (alive_blk j a) + (- cM j a) * ex j i (alive_ind j a k))%Q)) by (intros; ring).
+    rewrite qs_plus, !qs_scale. unfold W.
+    rewrite (sum_alive_blk j a), (sum_alive_ind j a k); try (unfold pw in *; lia). ring. }
+  rewrite (qs_ext _ _ (rP j k) InnerP), (qs_ext _ _ (rM j k) InnerM).
+  (* shift the left-extension sum onto the same index range and cancel pairwise *)
+  unfold rM. replace (k - pw j + 1) with (k - 2 * pw j + 1 + pw j) by lia. rewrite qs_shift. fold (rP j k).
+  rewrite <- qs_plus. rewrite (qs_zero _ (rP j k)); [ring|].
+  intros a _. rewrite <- Qmult_plus_distr_r.
+  pose proof (pair_zero j k a) as PZ.
+  rewrite (Qplus_comm _ _) in PZ.
+  match goal with |- (_ * ?e == 0)%Q => assert (E : (e == 0)%Q) end.
+  { rewrite <- PZ. ring. }
+  rewrite E. ring.
+Qed.
+
+Theorem mass_const J k : forall j, (j <= J)%nat ->
+  (mass j k (zr (k - pw J) (2 * 2 ^ J + 1)) == b2q (sl k))%Q.
+Proof.
+  induction j as [|j IH]; intros Hle.
+  - unfold mass, ex. cbn [C08_NUTS.doublings dist].
+    rewrite (qs_single _ _ k (zr_NoDup _ _)).
+    + destruct (in_dec Z.eq_dec k _) as [_ | Hout].
+      * unfold cur_ind. cbn [top_init p_cur]. rewrite Z.eqb_refl. ring.
+      * exfalso. apply Hout. apply zr_In. pose proof (pw_pos J). unfold pw in *. lia.
+    + intros x _ Hne. unfold cur_ind. cbn [top_init p_cur].
+      replace (x =? k) with false by (symmetry; apply Z.eqb_neq; exact Hne). ring.
+  - rewrite (mass_step j J k) by lia. apply IH. lia.
+Qed.
+
+(* ---------------- invariance on the orbit, every depth ---------------- *)
+Theorem orbit_stationary (max_depth : nat) (k : Z) : sl k = true ->
+  (qs (fun i => if sl i then dist (transition Z zleap H L U A logu guard max_depth i) (curi k) else 0)
+      (zr (k - pw (S max_depth)) (2 * 2 ^ S max_depth + 1)) == 1)%Q.
+Proof.
+  intros Hk. pose proof (mass_const (S max_depth) k (S max_depth) (le_n _)) as M. rewrite Hk in M. cbn [b2q] in M.
+  rewrite <- M. unfold mass. apply qs_ext. intros i _. unfold ex, C08_NUTS.transition. destruct (sl i); cbn [b2q]; ring.
 Qed.
 
 End Alive.
